@@ -64,6 +64,7 @@ class Conn:
         self.state = None        # server-side per-connection state
         self.seg_count = 0
         self.bytes_s2c = 0
+        self.reset = False        # the peer sent RST: reads and writes fail with ECONNRESET / EPIPE
 
     def __repr__(self):
         return "<conn#%d>" % self.id
@@ -185,6 +186,13 @@ class SimNet:
         while conn.segments and conn.segments[0].pos >= len(conn.segments[0].data):
             conn.segments.pop(0)
         if not conn.segments:
+            if conn.reset:
+                st.probe("recv_reset")
+                self._empty_reads += 1
+                self.events.append(("recv", conn.id, n, -3))
+                if self._empty_reads > MAX_EMPTY_READS:
+                    raise SimHang("keeps reading a reset connection")
+                raise ConnectionResetError(104, "Connection reset by peer")
             if conn.server_closed or conn.client_closed:
                 st.recv_eof += 1
                 self._empty_reads += 1
@@ -268,6 +276,9 @@ class SimNet:
         data = bytes(data)
         self.writes.append((self.call_id, conn.id, channel, data))
         self.events.append(("send", conn.id, channel, data))
+        if conn.reset:
+            self.stats.probe("send_on_reset")
+            raise BrokenPipeError(32, "Broken pipe")
         if conn.server_closed:
             return
         self.server.on_bytes(conn, channel, data)
